@@ -220,6 +220,8 @@ class C13(Check):
             op["k"], op["v"] = a_key(), item()
         elif name == "insert":
             op["i"], op["v"] = src.randint(-n - 1, n + 1), item()
+            if src.chance(0.1):
+                op["i"] = a_key()  # not a position: a plain list refuses it, and so must this one, without a trace
         elif name == "append":
             op["v"] = item()
         elif name in ("extend", "iadd", "add", "radd"):
@@ -327,11 +329,14 @@ class C13(Check):
             return "ok", None, nm
         if name == "insert":
             v = args["v"]
+            pos = self.resolve(env, m, op["i"])
+            if isinstance(pos, bool) or not isinstance(pos, int):
+                return "any_error", None, m  # like list.insert: a position is an integer
             err = check_new(v)
             if err:
                 return err, None, m
             nm = list(m)
-            nm.insert(op["i"], v)
+            nm.insert(pos, v)
             return "ok", None, nm
         if name == "append":
             v = args["v"]
@@ -416,7 +421,7 @@ class C13(Check):
             del l[op["i"]]
             return None
         if name == "insert":
-            return l.insert(op["i"], args["v"])
+            return l.insert(self.resolve(env, m, op["i"]), args["v"])
         if name == "append":
             return l.append(args["v"])
         if name == "extend":
@@ -580,7 +585,8 @@ class C13(Check):
             icls = "-"
             if "i" in op:
                 i = op["i"]
-                icls = "neg" if -n <= i < 0 else "ok" if 0 <= i < n else "oob"
+                icls = "non_int" if (isinstance(i, bool) or not isinstance(i, int)) else \
+                    "neg" if -n <= i < 0 else "ok" if 0 <= i < n else "oob"
             outcome = ("fault" if fired else "") + (type(got_exc).__name__ if got_exc else "ok")
             ctx.cell(universe, name, min(n, 5), icls, outcome)
             sig = {"op": name, "universe": universe}
@@ -619,6 +625,10 @@ class C13(Check):
                     if not (hasattr(got, "__len__") and list(got) == list(want) and all(a is b for a, b in zip(list(got), want))):
                         ctx.violate(dict(sig, invariant="result_value"), {"op": op, "got": strip_addr(repr(got))[:160],
                                                                          "want": strip_addr(repr(want))[:160]}, idx)
+                    elif type(got).__name__ == "KeyedList":
+                        mm = self.observe_mismatch(env, got, list(want))
+                        if mm:
+                            ctx.violate(dict(sig, invariant="concatenation_reads_agree_with_model"), {"op": op, "mismatch": mm}, idx)
                 else:
                     wk = []
                     legit = False
@@ -659,6 +669,11 @@ class C13(Check):
             elif name == "getitem_slice":
                 if not (type(got).__name__ == "KeyedList" and len(got) == len(want) and all(a is b for a, b in zip(list(got), want))):
                     ctx.violate(dict(sig, invariant="result_value"), {"op": op, "got": strip_addr(repr(got))[:160]}, idx)
+                else:
+                    # the slice is a KeyedList in its own right: its access by key agrees with a linear scan of *it*
+                    mm = self.observe_mismatch(env, got, list(want))
+                    if mm:
+                        ctx.violate(dict(sig, invariant="slice_reads_agree_with_model"), {"op": op, "mismatch": mm}, idx)
             elif name in ("getitem_idx", "getitem_key", "get", "pop", "pop_idx"):
                 if got is not want and not (isinstance(want, (int, str)) and got == want and type(got) is type(want)):
                     ctx.violate(dict(sig, invariant="result_value"), {"op": op, "got": strip_addr(repr(got))[:120],
